@@ -203,11 +203,26 @@ Proof.
       apply (trans_cons OG OG G); [apply (trans_weak A OG OG OG); [intros s0 H0; apply (O_A s0 (OG_O s0 H0))|auto|apply t_eol]|].
       assert (L : forall l, Forall (fun e => forall d, trans O (pexp d e) G) l -> trans OG (tlines c d l) OG).
       { unfold tlines. induction 1 as [|x r Hx Hr IH]; [apply trans_nil; auto|]. cbn [map List.concat].
-        apply (trans_app OG OG OG); [|exact IH]. apply (trans_app OG O OG); [apply (trans_weak O OG O O); [apply OG_O|auto|apply t_indent_O]|].
-        apply (trans_app O G OG); [apply Hx|]. apply (trans_cons G OG OG); [apply (trans_weak A G OG OG); [apply G_A|auto|kwo]|].
-        apply (trans_weak A OG OG OG); [intros s0 H0; apply (O_A s0 (OG_O s0 H0))|auto|apply t_eol]. }
+        apply (trans_app OG OG OG); [|exact IH].
+        assert (B : forall (bl : bool) k, trans OG k OG -> trans OG ((if bl then [eol c] else []) ++ k) OG).
+        { intros bl k Hk. destruct bl; [|exact Hk]. cbn [app]. apply (trans_cons OG OG OG); [apply (trans_weak A OG OG OG); [intros s0 H0; apply (O_A s0 (OG_O s0 H0))|auto|apply t_eol]|exact Hk]. }
+        assert (E : trans A [eol c] OG) by apply t_eol.
+        assert (Pl : forall g k, (forall d, trans O (pexp d g) G) -> trans OG k OG -> trans OG (indent c (S d) ++ pexp (S d) g ++ kw "," :: k) OG).
+        { intros g k Hg Hk. apply (trans_app OG O OG); [apply (trans_weak O OG O O); [apply OG_O|auto|apply t_indent_O]|].
+          apply (trans_app O G OG); [apply Hg|]. apply (trans_cons G OG OG); [apply (trans_weak A G OG OG); [apply G_A|auto|kwo]|exact Hk]. }
+        assert (Ee : trans OG [eol c] OG) by (apply (trans_weak A OG OG OG); [intros s0 H0; apply (O_A s0 (OG_O s0 H0))|auto|apply t_eol]).
+        destruct (isline x) eqn:Lx.
+        - destruct x; try discriminate; cbn [tline].
+          + (* a field line *) apply B. apply Pl; [intros d0; pose proof (Hx d0) as Q; cbn [Fmt0.pexp] in Q; exact Q|]. destruct t as [t1|]; cbn [app]; [|exact Ee].
+            apply (trans_cons OG O OG); [apply (trans_weak O OG O O); [apply OG_O|auto|apply t_sp_O]|].
+            apply (trans_cons O OG OG); [apply (trans_weak A O OG OG); [apply O_A|auto|apply t_other; reflexivity]|exact Ee].
+          + (* a comment line *) apply B. apply (trans_app OG O OG); [apply (trans_weak O OG O O); [apply OG_O|auto|apply t_indent_O]|].
+            apply (trans_cons O OG OG); [apply (trans_weak A O OG OG); [apply O_A|auto|apply t_other; reflexivity]|exact Ee].
+        - rewrite (tline_plain c d x Lx). apply Pl; [exact Hx|exact Ee]. }
       apply (trans_app OG OG G); [apply L; exact H|]. apply (trans_app OG O G); [apply (trans_weak O OG O O); [apply OG_O|auto|apply t_indent_O]|].
       apply (trans_weak A O G G); [apply O_A|auto|apply t_val; reflexivity].
+  - (* a field line outside a table *) apply IHe.
+  - (* a comment line outside a table *) apply (trans_weak A O OG G); [apply O_A|apply OG_G|kwo].
 Qed.
 
 (* ---------------- statements ---------------- *)
@@ -351,7 +366,7 @@ Proof.
   - apply c_sp_A; [auto with sub|]. apply c_other; [kwc|auto with sub|apply c_nil; auto with sub].
   - assert (N : trans O (eol c :: pblk c (S d) b ++ indent c d ++ [kw "end"]) A).
     { apply c_eol; [auto with sub|]. apply (c_weak _ O OG A A); [auto with sub|apply sub_refl|]. apply t_block_end; [exact Hb|auto with sub]. }
-    destruct (fun_guard c b) as [s1|]; [destruct (oneline (psimple c d s1)); [apply t_collapsed|exact N]|exact N].
+    destruct (fun_guard c b) as [s1|]; [destruct (oneline (psimple c d s1) && nocom (psimple c d s1)); [apply t_collapsed|exact N]|exact N].
 Qed.
 Lemma t_concat_items is : Forall Is is -> forall d, trans O (List.concat (map (pitem c d) is)) O.
 Proof. induction 1 as [|i r Hi Hr IH]; intros d; [apply c_nil; apply sub_refl|]. cbn [map List.concat]. apply (c_app _ _ O O O); [apply Hi|apply IH]. Qed.
@@ -377,12 +392,14 @@ Proof.
       apply c_sp_A; [auto with sub|]. apply t_do_end; auto with sub.
     + (* repeat *) rewrite p_repeat. apply c_other; [kwc|auto with sub|]. apply c_eol; [auto with sub|]. apply (c_weak _ O OG A A); [auto with sub|apply sub_refl|].
       apply (c_app _ _ O O A); [apply H0|]. apply (c_app _ _ O O A); [apply t_indent_O|]. apply c_other; [kwc|auto with sub|]. apply c_sp_O; [auto with sub|]. apply t_pexp_s; auto with sub.
-    + (* if *) rewrite p_if. destruct (if_guard c t r) as [s1|].
-      * apply c_other; [kwc|auto with sub|]. apply c_sp_O; [auto with sub|]. apply (c_app _ _ O A A); [apply t_pexp_s; auto with sub|].
-        apply c_sp_A; [auto with sub|]. apply c_other; [kwc|auto with sub|]. apply (c_weak _ O OG A A); [auto with sub|apply sub_refl|apply t_collapsed].
-      * apply c_other; [kwc|auto with sub|]. apply c_sp_O; [auto with sub|]. apply (c_app _ _ O A A); [apply t_pexp_s; auto with sub|].
+    + (* if *) rewrite p_if.
+      assert (N : trans O (kw "if" :: sp :: pexp d e ++ sp :: kw "then" :: eol c :: pblk c (S d) t ++ pels c d r ++ indent c d ++ [kw "end"]) A).
+      { apply c_other; [kwc|auto with sub|]. apply c_sp_O; [auto with sub|]. apply (c_app _ _ O A A); [apply t_pexp_s; auto with sub|].
         apply c_sp_A; [auto with sub|]. apply c_other; [kwc|auto with sub|]. apply c_eol; [auto with sub|]. apply (c_weak _ O OG A A); [auto with sub|apply sub_refl|].
-        apply (c_app _ _ O O A); [apply H0|]. apply (c_app _ _ O O A); [apply H1|]. apply (c_app _ _ O O A); [apply t_indent_O|]. apply c_other; [kwc|auto with sub|apply c_nil; auto with sub].
+        apply (c_app _ _ O O A); [apply H0|]. apply (c_app _ _ O O A); [apply H1|]. apply (c_app _ _ O O A); [apply t_indent_O|]. apply c_other; [kwc|auto with sub|apply c_nil; auto with sub]. }
+      destruct (if_guard c t r) as [s1|]; [destruct (nocom (psimple c d s1)); [|exact N]|exact N].
+      apply c_other; [kwc|auto with sub|]. apply c_sp_O; [auto with sub|]. apply (c_app _ _ O A A); [apply t_pexp_s; auto with sub|].
+      apply c_sp_A; [auto with sub|]. apply c_other; [kwc|auto with sub|]. apply (c_weak _ O OG A A); [auto with sub|apply sub_refl|apply t_collapsed].
     + (* numeric for *) rewrite p_numfor. apply c_other; [kwc|auto with sub|]. apply c_sp_O; [auto with sub|]. apply c_val; [reflexivity|auto with sub|].
       apply c_sp_A; [auto with sub|]. apply c_other; [kwc|auto with sub|]. apply c_sp_O; [auto with sub|]. apply (c_app _ _ O A A); [apply t_pexp_s; auto with sub|].
       apply c_other; [kwc|auto with sub|]. apply c_sp_O; [auto with sub|]. apply (c_app _ _ O A A); [apply t_pexp_s; auto with sub|].
